@@ -10,6 +10,7 @@ schema_validator is proved in two layers (nested cut loops):
  documented policy; wrap_handler's arity adapter, set_type's field selection / transform-before-cast, validate's custom
  validators are separate items.  `cast` is tableschema's Field.cast_value: assumed total function to value | CastError (T5).
 """
+from contracts import findings_natives as KF
 from contracts.common import fn_named
 from contracts.common import (same_row_object, Item, mk_resource, run_spec, ghost_row, expect_no_raise_or_same, _b)
 
@@ -834,4 +835,5 @@ ITEMS = [
          P + 'set_type.py::set_type.process_datapackage'),
     Item('validate.custom', sym_validate_custom, [('differential', nat_validate)], P + 'validate.py::validate.rows_validator.func'),
     Item('validate.schema', sym_validate_with_schema, [], P + 'validate.py::validate.validate_with_schema.func'),
+    Item('recorded-findings', None, [('bounded', KF.nat_findings_c14)], 'dataflows/base/schema_validator.py::schema_validator'),
 ]
